@@ -189,6 +189,10 @@ func (h *header) encode(dst []byte) (int, error) {
 func (h *header) decode(src []byte) (int, error) {
 	total := 0
 
+	if len(src) < 1 {
+		return total, fmt.Errorf("header/Decode: Insufficient buffer size. Expecting at least 1, got 0")
+	}
+
 	h.dbuf = src
 
 	mtype := h.Type()
